@@ -4,10 +4,14 @@
 mod gen;
 mod harness;
 mod model;
+mod mon_bytes;
 mod mon_err;
+mod mon_fault;
+mod mon_time;
 mod mon_invariant;
 mod mon_twin;
 mod mon_overlay;
+mod mon_panic;
 mod observe;
 mod ops;
 mod props;
